@@ -138,6 +138,19 @@ func intProgram[K commitments.HomomorphicCommitmentKey[K, *intcom.Message, *intc
 				}
 				ops = append(ops, hop{kind: 'O', i: i, j: j})
 				regs = append(regs, intReg{m, w, c})
+				if rng.Chance(1, 4) { // the variadic form: Op(first, second, rest...)
+					l := rng.Intn(len(regs))
+					d := regs[l]
+					m3, e1 := key.MessageOp(a.m, b.m, d.m)
+					w3, e2 := key.WitnessOp(a.w, b.w, d.w)
+					c3, e3 := key.CommitmentOp(a.c, b.c, d.c)
+					if e1 != nil || e2 != nil || e3 != nil {
+						fail = fmt.Sprint("Op(3): ", e1, e2, e3)
+						return
+					}
+					ops = append(ops, hop{kind: 'O', i: len(regs) - 1, j: l})
+					regs = append(regs, intReg{m3, w3, c3})
+				}
 			case 'V':
 				a := regs[i]
 				m, e1 := key.MessageOpInv(a.m)
